@@ -124,6 +124,16 @@ func TestVerifC12_goldilocksscalar(t *testing.T) {
 		f.CheckUn(r, op, all, true)
 	}
 	f.CheckPred(r, bf.Pred{Name: "IsZero", Do: func(x bf.Elem) bool { return x.(*Scalar).IsZero() }, Ref: bf.RefIsZero}, all)
+	{
+		l := bf.L448
+		b := []bf.Operand{{V: new(big.Int), Name: "0"}, {V: big.NewInt(1), Name: "1"}, {V: new(big.Int).Sub(l, big.NewInt(1)), Name: "p-1"}, {V: bf.Pseudo("goldilocks-pred", 0, l), Name: "pseudo0"}, {V: bf.Pseudo("goldilocks-pred", 1, l), Name: "pseudo1"}}
+		for k := int64(1); k <= 4; k++ {
+			b = append(b, bf.Operand{V: new(big.Int).Mul(l, big.NewInt(k)), Name: "k*l"})
+		}
+		b = append(b, bf.Operand{V: new(big.Int).Sub(bf.Pow2(448), big.NewInt(1)), Name: "2^448-1"})
+		f.CheckBitFlips(r, bf.BitFlip{Coords: 1, Bits: 448, P: l, Limit: bf.Pow2(448), IsZero: func(x bf.Elem) bool { return x.(*Scalar).IsZero() }}, b)
+		r.RequireCounter("goldilocks.Scalar.predicates.one-bit-neighbours", 10*448)
+	}
 	r.RequireCounter("goldilocks.Scalar.IsZero.true", 5) // 0, l, 2l, 3l, 4l
 
 	// FromBytes on every input length 0..171 (three times the scalar size) and four fills
